@@ -124,7 +124,7 @@ def hunt_layout_failure(c, cs, prop, nhist=30, oracle=None):
         op_tree_sweep(c, 500, seed_base=20000, label='H-layout op-tree sweep (failing-input search)')
     scored = sorted(getattr(c, 'bad_layout_scored', []), key=lambda x: -x[0])
     texts = []
-    for _s, t in scored[:10] + [(0, cs.text)]:
+    for _s, t in [x for x in scored if x[0] > 0][:40] + scored[:6] + [(0, cs.text)]:
         if t not in texts:
             texts.append(t)
     return rt.search_impl(c, oracle or c01.oracle, nhist=nhist, texts=texts, profiles=('layout-pad', 'layout-bits', 'layout', 'rt', 'rt-pad', 'rt-bits'),
